@@ -86,6 +86,14 @@ CLAIMED = {
              "(float(), blanks, '/') is exercised by the harness, not proved.",
              technique="Coq proof (string suffix lemmas, finite case analysis over the prefix x unit table); translator tie for the prefix table; enumerated correspondence",
              design="5 C14"),
+ 'C12': dict(text="Theorem csf_sound (every stock satisfying the invariant incl. multi-component stocks with enzyme bystanders, every non-enzyme "
+             "solute and pure solvent, every numerator/denominator/quantity base unit): the new solution has exactly the requested total in the "
+             "unit of the request and exactly the requested concentration as read back from its contents; every substance but the solvent is "
+             "conserved over residual + new solution and the solvent only grows; what left the source is a uniform aliquot; all outputs satisfy "
+             "the invariant. Supporting theorems: the 2x2 system by unit, aliquots keep intensive quantities, negative solutions (targets above "
+             "the stock) are refused. Container solvent: invariants proved, quantity/concentration/conservation by correspondence + oracle (partial).",
+             technique="Coq proof over Q (2x2 exact solve soundness + aliquot lemma + field); differential correspondence; read-back and conservation oracle",
+             design="5 C12"),
  'C13': dict(text="Theorems (all plate sizes, label lists, selectors of the grammar): positions are 1-based and labels/integers interchangeable; "
              "'A:1', ('A','1'), (i,j) and one-element lists denote the same well; the iteration performed for a slice equals the documented "
              "comprehension (both ends included, open ends to the edge, every k-th for a positive step); lists keep their order; nothing "
